@@ -514,9 +514,23 @@ impl LinearModel {
         out.push_str(&format!(" obj: {}\n", objective));
 
         out.push_str("Subject To\n");
+        // generated names must not collide with user-written ones (or with each other)
+        let mut used_names: Vec<String> = self
+            .constraints
+            .iter()
+            .map(|c| c.name())
+            .filter(|name| !name.is_empty())
+            .collect();
         for (i, c) in self.constraints.iter().enumerate() {
             let name = if c.name().is_empty() {
-                format!("c{}", i + 1)
+                let mut candidate = format!("c{}", i + 1);
+                let mut suffix = 2usize;
+                while used_names.contains(&candidate) {
+                    candidate = format!("c{}_{}", i + 1, suffix);
+                    suffix += 1;
+                }
+                used_names.push(candidate.clone());
+                candidate
             } else {
                 c.name()
             };
